@@ -75,17 +75,28 @@ func concatS(v []*string) *string {
 func firstS(v []*string) *string { return v[0] }
 func lastS(v []*string) *string  { return v[len(v)-1] }
 
+func nthPos(n, l int) int {
+	if n >= l {
+		return l - 1
+	}
+	return n
+}
+func nthI(n int) func([]int) int         { return func(v []int) int { return v[nthPos(n, len(v))] } }
+func nthF(n int) func([]float64) float64 { return func(v []float64) float64 { return v[nthPos(n, len(v))] } }
+func nthB(n int) func([]bool) bool       { return func(v []bool) bool { return v[nthPos(n, len(v))] } }
+func nthS(n int) func([]*string) *string { return func(v []*string) *string { return v[nthPos(n, len(v))] } }
+
 // AggsFor lists the aggregation functions applicable to a column kind.
 func AggsFor(k Kind) []string {
 	switch k {
 	case KInt:
-		return []string{"count", "sum", "min", "max", "wsum", "first", "last"}
+		return []string{"count", "sum", "min", "max", "wsum", "first", "last", "nth0", "nth1", "nth2"}
 	case KFloat:
-		return []string{"count", "sum", "min", "max", "avg", "wsum", "first", "last"}
+		return []string{"count", "sum", "min", "max", "avg", "wsum", "first", "last", "nth0", "nth1", "nth2"}
 	case KBool:
-		return []string{"count", "majority", "first", "last", "xorchain"}
+		return []string{"count", "majority", "first", "last", "xorchain", "nth0", "nth1", "nth2"}
 	default:
-		return []string{"count", "concat", "first", "last", "strjoin"}
+		return []string{"count", "concat", "first", "last", "strjoin", "strjoin,", "nth0", "nth1", "nth2"}
 	}
 }
 
@@ -107,6 +118,12 @@ func (a Agg) Build(k Kind) qframe.Aggregation {
 		fn = concatS
 	case "strjoin":
 		fn = aggregation.StrJoin("|") // the library's own example aggregation
+	case "strjoin,":
+		fn = aggregation.StrJoin(",") // a second function value made by the same constructor
+	case "nth0", "nth1", "nth2":
+		// function values that differ only in what they captured (one function literal per type)
+		n := int(a.Fn[3] - '0')
+		fn = map[Kind]interface{}{KInt: nthI(n), KFloat: nthF(n), KBool: nthB(n), KString: nthS(n), KEnum: nthS(n)}[k]
 	case "xorchain":
 		fn = xorChainB
 	}
@@ -152,6 +169,8 @@ func (a Agg) Apply(c Col, rows []int, out *Col) {
 			x = v[0]
 		case "last":
 			x = v[len(v)-1]
+		case "nth0", "nth1", "nth2":
+			x = v[nthPos(int(a.Fn[3]-'0'), len(v))]
 		}
 		out.I = append(out.I, x)
 	case KFloat:
@@ -186,6 +205,8 @@ func (a Agg) Apply(c Col, rows []int, out *Col) {
 			x = v[0]
 		case "last":
 			x = v[len(v)-1]
+		case "nth0", "nth1", "nth2":
+			x = v[nthPos(int(a.Fn[3]-'0'), len(v))]
 		}
 		out.F = append(out.F, x)
 	case KBool:
@@ -207,6 +228,8 @@ func (a Agg) Apply(c Col, rows []int, out *Col) {
 			x = v[0]
 		case "last":
 			x = v[len(v)-1]
+		case "nth0", "nth1", "nth2":
+			x = v[nthPos(int(a.Fn[3]-'0'), len(v))]
 		case "xorchain":
 			x = xorChainB(v)
 		}
@@ -233,6 +256,16 @@ func (a Agg) Apply(c Col, rows []int, out *Col) {
 			x = firstS(v)
 		case "last":
 			x = lastS(v)
+		case "nth0", "nth1", "nth2":
+			x = v[nthPos(int(a.Fn[3]-'0'), len(v))]
+		case "strjoin,":
+			var parts []string
+			for _, p := range v {
+				if p != nil {
+					parts = append(parts, *p)
+				}
+			}
+			x = Sp(strings.Join(parts, ","))
 		}
 		out.S = append(out.S, x)
 	}
